@@ -4,7 +4,10 @@
 #include <stdint.h>
 #include <string.h>
 static uint64_t vals[4096]; static unsigned nvals, pos; static uint64_t rng = 0x9E3779B97F4A7C15ULL; static int special;
-uint64_t vin_u64(void){
+static FILE* dumpf;
+static uint64_t vin_u64_(void);
+uint64_t vin_u64(void){ uint64_t v = vin_u64_(); if (dumpf) { fprintf(dumpf, "%llx\n", (unsigned long long)v); fflush(dumpf); } return v; }
+static uint64_t vin_u64_(void){
   if (pos < nvals) { rng ^= vals[pos]; return vals[pos++]; }
   pos++;
   rng ^= rng << 13; rng ^= rng >> 7; rng ^= rng << 17;
@@ -19,6 +22,7 @@ int main(int argc, char** argv){
   const char* f = getenv("VIN_FILE");
   if (getenv("VIN_SEED")) { rng ^= strtoull(getenv("VIN_SEED"), 0, 0) * 0xD1342543DE82EF95ULL + 1; special = 1; }
   if (f) { FILE* fp = fopen(f, "r"); char line[128]; while (fp && fgets(line, sizeof line, fp) && nvals < 4096) { if (line[0]=='#' || line[0]=='\n') continue; vals[nvals++] = strtoull(line, 0, 16); } if (fp) fclose(fp); }
+  if (getenv("VIN_DUMP")) dumpf = fopen(getenv("VIN_DUMP"), "w");
   VERIF_ENTRY();
   printf("DONE\n");
   return 0;
